@@ -4,7 +4,8 @@ import json, os, random, shutil
 KINDS = ["content-change", "content-truncate", "content-extend", "content-delete", "content-add", "content-rename", "content-swap",
          "content-to-symlink", "content-to-emptydir", "dir-to-symlink", "dir-to-emptydir",
          "root-inv-byte", "ver-inv-byte", "root-sidecar-digest", "ver-sidecar-digest",
-         "decl-delete", "decl-alter", "stray-root", "stray-version", "stray-content", "remove-version-dir"]
+         "decl-delete", "decl-alter", "stray-root", "stray-version", "stray-content", "remove-version-dir",
+         "meta-to-symlink", "meta-to-emptydir"]
 STRUCTURAL = {k for k in KINDS if k not in ("content-change", "content-truncate", "content-extend", "content-swap")}
 
 
@@ -142,6 +143,28 @@ def apply(obj, kind, rng, pos=None):
         if not v: return None
         os.makedirs(os.path.join(obj, v, cdir, "stray-dir"), exist_ok=True)
         return kind + " (empty directory in the content directory)"
+    if kind in ("meta-to-symlink", "meta-to-emptydir"):
+        # an inventory, a sidecar or the version declaration, in the object root or in a version directory
+        cands = [f for f in os.listdir(obj) if os.path.isfile(os.path.join(obj, f))]
+        for v in versions:
+            vd = os.path.join(obj, v)
+            if os.path.isdir(vd):
+                cands += [os.path.join(v, f) for f in os.listdir(vd) if os.path.isfile(os.path.join(vd, f))]
+        f = pick(sorted(cands))
+        if not f: return None
+        p = os.path.join(obj, f)
+        if kind == "meta-to-symlink":
+            mode = rng.choice(["copy-outside", "dangling", "to-root-copy"])
+            if mode == "copy-outside":
+                shutil.move(p, obj + ".stash")
+                os.symlink(obj + ".stash", p)
+            elif mode == "dangling":
+                os.unlink(p); os.symlink("/nonexistent/target", p)
+            else:
+                os.unlink(p); os.symlink(os.path.join("..", os.path.basename(f)) if "/" in f else os.path.basename(f) + ".gone", p)
+            return "%s %s (%s)" % (kind, f, mode)
+        os.unlink(p); os.mkdir(p)
+        return "%s %s" % (kind, f)
     if kind == "remove-version-dir":
         v = pick(versions)
         shutil.rmtree(os.path.join(obj, v))
